@@ -1133,3 +1133,43 @@ package trzsz
 //@     invariant [C13] !windowsRuntime ==> rdLen[r.clientIn] - old(rdLen)[r.clientIn] == \
 //@         (sentBytes[r.stdinBuffer] - old(sentBytes)[r.stdinBuffer]) + (inLen - old(inLen))
 //@ end
+
+// ===========================================================================
+// C17  only the authenticated tunnel connection is adopted, and only one (transfer.go)
+// ===========================================================================
+
+//@ func wrapTransferInput trusted pure
+//@ end
+
+//@ # One accepted connection: the server's greeting is written to it only after exactly the client's
+//@ # greeting (derived from this transfer's id and port) was read from it in one piece; anything else
+//@ # gets the connection closed without a single byte written; the connection's bytes are handed to
+//@ # the transfer only after the one compare-and-swap from "no tunnel yet" succeeded.
+//@ func trzszTransfer.acceptOnTunnel$1$1
+//@   requires len(serverHello) > 0
+//@   ensures [C17] wlen[conn] == old(wlen)[conn] ==> closedC[conn]
+//@   before net.Conn.Write assert [C17] result_of("net.Conn.Read", 0, 1) == nil && \
+//@       result_of("net.Conn.Read", 0, 0) == len(clientHello) && \
+//@       (forall j int {buf[j]} :: 0 <= j && j < len(clientHello) ==> buf[j] == clientHello[j])
+//@   before wrapTransferInput assert [C17] result_of("atomic.Pointer.CompareAndSwap[net.Conn]", 0, 0) && \
+//@       wlen[conn] > old(wlen)[conn] - 1 && result_of("net.Conn.Write", 0, 1) == nil
+//@ end
+
+//@ # once both ends agreed on the tunnel, bytes arriving in-band are dropped
+//@ func trzszTransfer.addReceivedData
+//@   ensures [C17] t.tunnelConnected && !tunnel ==> sentCnt == old(sentCnt) && sentBytes == old(sentBytes)
+//@ end
+
+//@ func getHelloConstant pure
+//@ end
+
+//@ # The relay's side of the tunnel: the server is dialled only after the client presented exactly the
+//@ # greeting for this relay's port; the client is answered only after the server answered exactly its
+//@ # greeting; the pair is adopted by one compare-and-swap from "no tunnel yet".
+//@ func TrzszRelay.handleTunnelConn
+//@   before net.Conn.Write#0 assert [C17] result_of("net.Conn.Read", 0, 1) == nil && \
+//@       result_of("net.Conn.Read", 0, 0) == len(clientHello1)
+//@   before net.Conn.Write#1 assert [C17] result_of("net.Conn.Read", 1, 1) == nil && \
+//@       result_of("net.Conn.Read", 1, 0) == len(serverHello3) && \
+//@       (forall j int {buf[j]} :: 0 <= j && j < len(serverHello3) ==> buf[j] == serverHello3[j])
+//@ end
